@@ -48,7 +48,18 @@ type VCluster struct {
 	NsHist        map[string][]map[string]string // namespace -> label sets over time (nil = deleted)
 	watches       []*filterWatch
 	WatchesOpened int
+	listHook      atomic.Pointer[func(resource, namespace string)]
 	stalled       atomic.Bool // while set, open watches deliver nothing (an outage that ends with ExpireWatches)
+}
+
+// OnList installs a function that is called (on the caller's goroutine) at the start of every list request
+// of the dynamic client; it may block (a slow API round-trip). nil removes it.
+func (vc *VCluster) OnList(f func(resource, namespace string)) {
+	if f == nil {
+		vc.listHook.Store(nil)
+		return
+	}
+	vc.listHook.Store(&f)
 }
 
 // StallWatches makes every open watch silently drop what happens in the cluster (on=true) until it is
@@ -86,6 +97,12 @@ func NewVCluster() *VCluster {
 			return true, nil, err
 		}
 		return true, obj, nil
+	})
+	dyn.PrependReactor("list", "*", func(action clienttesting.Action) (bool, runtime.Object, error) {
+		if f := vc.listHook.Load(); f != nil {
+			(*f)(action.GetResource().Resource, action.GetNamespace())
+		}
+		return false, nil, nil
 	})
 	dyn.PrependWatchReactor("*", func(action clienttesting.Action) (bool, watch.Interface, error) {
 		wa, ok := action.(clienttesting.WatchActionImpl)
